@@ -32,6 +32,24 @@ Theorem C14_reset_equiv_fresh :
 Proof. intros V C rk c0 c1 prot l A. exact (retarget_equiv_fresh V C rk A c0 c1 prot l). Qed.
 Print Assumptions C14_reset_equiv_fresh.
 
+(* the same for objects produced by COPYING state (copy.copy / deepcopy of an analyzer, the copied instance dict
+   of Epochs.__getitem__; slices of slices and several slices of one parent are iterations of this): the copy,
+   re-targeted, equals a newly built object; the original goes on as if no copy had been taken.  The model's
+   states are values — the hypothesis that original and copy share no mutable reset bookkeeping is checked on the
+   running code by G (flag `isolated` of C14K.tables_ok). *)
+Theorem C14_copy_reset_equiv_fresh :
+  forall (V : Type) (C : cls V) (rk : nat -> nat) (c0 c1 : nat -> V) (prot : nat -> bool) (l : list (nat * V)),
+  acyclic C rk -> wf_strict C c0 prot -> wf_strict C c1 prot ->
+  survivors_stable C rk c0 c1 -> no_init_derived_state C prot l c0 c1 ->
+  forall F h1 h2 r ho ro, (forall x, In x (r :: ro :: h1 ++ h2 ++ ho) -> rk x < F) ->
+  exists s1, run C F (construct c0) h1 = Some s1 /\
+  (exists s2, run C F (retarget C l (copy_state s1)) h2 = Some s2 /\
+   exists s3, read C F s2 r = Some (val C c1 F r, s3) /\ (forall x, calls s3 x <= 1)) /\
+  (exists so, run C F s1 ho = Some so /\
+   exists so', read C F so ro = Some (val C c0 F ro, so') /\ (forall x, calls so' x <= 1)).
+Proof. intros V C rk c0 c1 prot l A. exact (copy_retarget_equiv_fresh V C rk A c0 c1 prot l). Qed.
+Print Assumptions C14_copy_reset_equiv_fresh.
+
 (* with own_dict_complete (every one-time name is deleted by reset) nothing at all survives *)
 Theorem C14_own_dict_complete_clears : forall (V : Type) (C : cls V) l s x,
   own_dict_complete C -> inst (retarget C l s) x = None.
